@@ -46,12 +46,14 @@ def shards(tier, seed):
     return out
 
 
-def emit_cookie_line(iface, setter, created=None):
+def emit_cookie_line(iface, setter, created=None, through=None):
     mod = __import__("baize.wsgi" if iface == "wsgi" else "baize.asgi", fromlist=["Response"])
     if created is not None:
         created()  # e.g. move the clock: the response object may be older than the set_cookie() call
     resp = mod.Response(204)
     setter(resp)
+    if through is not None:
+        resp = through(resp)  # e.g. an identity middleware between the response and the server
     req = SV.AReq()
     if iface == "wsgi":
         res = SV.run_wsgi(resp, SV.to_environ(req))
@@ -131,6 +133,32 @@ def cookie_sets(r):
                     continue
                 if dict(got) != dict(combo):
                     r.violation("sets:value-changed", w, f"{iface} cookies {combo} -> Cookie: {header!r} -> {dict(got)!r}")
+                    continue
+                # the same response behind an identity middleware (the library's own), request after request in one process: the
+                # client must receive the same cookie lines
+                try:
+                    W = _wrappers(iface)
+                    for stack in (("M",), ("M", "M"), ("E",)):
+                        def through(resp, stack=stack):
+                            app = resp
+                            for name in stack:
+                                app = W[name](app)
+                            return app
+                        lines2, res2 = emit_cookie_line(iface, setter, through=through)
+                        if sorted(lines2) != sorted(lines):
+                            r.violation("sets:middleware-changes-lines", dict(w, stack=list(stack)), f"{iface} cookies {combo} behind identity middleware {stack}: Set-Cookie lines {lines2!r:.200} instead of {lines!r:.200}")
+                            break
+                except Exception as e:  # noqa
+                    r.violation(f"sets:middleware-exception:{type(e).__name__}", w, f"{iface} cookies {combo} behind identity middleware raised {e!r:.100}")
+
+
+_W = {}
+
+
+def _wrappers(iface):
+    if iface not in _W:
+        _W[iface] = __import__("vf.props.c20", fromlist=["wrappers"]).wrappers(iface)
+    return _W[iface]
 
 
 def reuse_sequences(r):
